@@ -10,6 +10,8 @@ integral rows the real calculation builds equals |Pairs|.
 directions, three methods) - interaction energy, force, charge and orbital-energy deviations from the isolated
 fragments must decay at least like the leading multipole between consecutive separations."""
 
+import os
+
 from drivers import batch_driver, mdlib
 from harness import common
 
@@ -38,8 +40,49 @@ def consumers(rec):
     mol.verbose = False
     es = Electronic_Structure(p)
     es(mol)
+    # every listed pair still carries its interaction: Klopman-Ohno (ss|ss) = e^2 / sqrt(R^2 + (rho_a + rho_b)^2) with
+    # rho_a + rho_b < 4 bohr for H, C, N, O: kernel * R / e^2 lies between R / sqrt(R^2 + 16) and 1 (R in bohr)
+    kern = [1.0, 1.0]
+    if mol.w is not None and mol.w.shape[0]:
+        R = mol.rij.detach()
+        ratio = mol.w[:, 0, 0].detach() * R / 27.21
+        kern = [float((ratio / (R / torch.sqrt(R * R + 16.0))).min()), float(ratio.max())]
     return {"npairs_model": len(rec["idxi"]), "idxi": int(mol.idxi.shape[0]), "w": int(mol.w.shape[0]) if mol.w is not None else -1,
-            "rij": int(mol.rij.shape[0]), "finite": bool(torch.isfinite(mol.Etot).all())}
+            "rij": int(mol.rij.shape[0]), "finite": bool(torch.isfinite(mol.Etot).all()), "kernel_ratio": kern}
+
+
+def md_pairs(case):
+    """Finite cutoff during MD: two H2 molecules (one row) approach each other; after the run the pair list the code holds
+    must be the one of the current geometry (the specification's rule applied to the final coordinates)."""
+    import os
+
+    import torch
+
+    mdlib.use_stub(False)
+    common.quiet_stdio()
+    from seqm.seqm_functions.constants import Constants
+    from seqm.Molecule import Molecule
+
+    cut = case["cutoff"]
+    p = mdlib.seqm_params(pair_outer_cutoff=cut, scf_eps=1e-7)
+    sp = torch.tensor([[1, 1, 1, 1]])
+    x = torch.tensor([[[0.0, 0.0, 0.0], [0.74, 0.0, 0.0], [0.0, case["sep"], 0.3], [0.74, case["sep"], 0.3]]], dtype=torch.float64)
+    mol = Molecule(Constants(), p, x, sp)
+    mol.verbose = False
+    v = torch.zeros_like(x)
+    v[0, 2:, 1] = -case["speed"]
+    mol.velocities = v
+    out = {"molid": [0], "prefix": os.path.join(case["workdir"], "md"), "print every": 0, "checkpoint every": 0, "xyz": 0, "h5": {}}
+    os.makedirs(case["workdir"], exist_ok=True)
+    md = mdlib.MDmod.Molecular_Dynamics_Basic(seqm_parameters=p, timestep=1.0, Temp=0.0, output=out) if case["engine"] == "basic" else \
+        mdlib.MDmod.XL_BOMD(xl_bomd_params={"k": 3}, damp=None, seqm_parameters=p, timestep=1.0, Temp=0.0, output=out)
+    first = int(mol.idxi.shape[0]) if torch.is_tensor(getattr(mol, "idxi", None)) else -1
+    md.run(mol, steps=case["steps"])
+    xf = mol.coordinates.detach()[0]
+    want = sorted((i, j) for i in range(4) for j in range(i + 1, 4) if float((xf[i] - xf[j]).norm()) < cut)
+    got = sorted(zip([int(a) for a in mol.idxi], [int(b) for b in mol.idxj]))
+    d = sorted(float((xf[i] - xf[j]).norm()) for i in range(4) for j in range(i + 1, 4))
+    return {"want": want, "got": got, "pairs_at_start": first, "distances": d}
 
 
 SEPS = (8.0, 12.0, 20.0, 40.0, 80.0, 160.0, 320.0, 500.0)
@@ -131,6 +174,21 @@ def main(tier):
             o = c["result"]
             if not (o["idxi"] == o["w"] == o["rij"] == o["npairs_model"]) or not o["finite"]:
                 rep.violation("consumer_ignores_pair_list", {"batch": {"sp": rec["sp"], "cut2": rec["cut2"], "pos": rec["pos"]}, "observed": o}, finite_cutoff=rec["cut2"] != 0)
+            elif o["kernel_ratio"][0] < 1.0 or o["kernel_ratio"][1] > 1.0 + 1e-9:
+                rep.violation("listed_pair_without_interaction", {"batch": {"sp": rec["sp"], "cut2": rec["cut2"], "pos": rec["pos"]}, "observed": o}, finite_cutoff=rec["cut2"] != 0)
+        mdc = [dict(engine=e, cutoff=3.0, sep=3.6, speed=0.25, steps=4, workdir=os.path.join(scratch, "mdp_%s" % e)) for e in ("basic", "xl")]
+        mres = common.run_forked(mdc, md_pairs, timeout=900)
+        md_info = []
+        for c, rr in zip(mdc, mres):
+            if not rr.get("ok"):
+                rep.machinery("MD pair-list run failed: " + str(rr.get("error")) + str(rr.get("tb"))[-300:])
+                continue
+            o = rr["result"]
+            md_info.append({"engine": c["engine"], "pairs_at_start": o["pairs_at_start"], "pairs_at_end": len(o["got"])})
+            if len(o["want"]) == o["pairs_at_start"]:
+                rep.machinery("MD pair-list case is vacuous: no pair crossed the cutoff")
+            if o["got"] != o["want"]:
+                rep.violation("pair_list_not_refreshed_during_md", {"case": {k: v for k, v in c.items() if k != "workdir"}, "observed": o}, finite_cutoff=True, engine=c["engine"])
         # (a) additivity: monitored decay of the fragment interaction (energies, forces, charges, orbital energies)
         dirs = [(0.6, 0.64, 0.48), (1.0, 0.0, 0.0), (0.0, -0.6, 0.8)]
         acases = []
@@ -168,7 +226,7 @@ def main(tier):
             "traces_validated_against_impl": len(recs),
             "samples": [{"sp": x["sp"], "cut2": x["cut2"], "pos": x["pos"], "idxi": x["idxi"], "idxj": x["idxj"]} for x in frags[:2]] or [{}],
             "batches_compared_exactly": len(recs),
-            "fragment_batches_run": len(frags), "additivity_series": len(acases), "additivity_comparisons": n_add, "calibration_worst_deviation_over_bound": worst, "calibration_largest_deviation_at_8A": worst8,
+            "fragment_batches_run": len(frags), "md_pair_list_runs": md_info, "additivity_series": len(acases), "additivity_comparisons": n_add, "calibration_worst_deviation_over_bound": worst, "calibration_largest_deviation_at_8A": worst8,
             "evaluations": len(recs),
             "distinct_nontrivial": len([x for x in finite if len(x["idxi"]) > 0]),
             "rule": "every batch of the enumerated lattice and the fragment family, exported by TLC; non-trivial = finite cutoff and at least one surviving pair",
